@@ -31,7 +31,7 @@ ASSUMPTIONS = [
     "timestamps are non-decreasing modulo 2^32; the first call is compared with an implicit previous timestamp 0",
     "one process per history; both devices of a program may be interleaved in one history",
 ]
-FLOORS = {"repeated_timestamp": 0.3, "gap_ge_2p": 0.3, "wrap": 0.1, "no_period_message": 0.2, "set_value": 0.5}
+FLOORS = {"repeated_timestamp": 0.2, "gap_ge_2p": 0.2, "wrap": 0.1, "no_period_message": 0.12, "set_value": 0.3}
 
 
 @st.composite
